@@ -47,7 +47,14 @@ From CKC Require Import Model.Proj Proofs.ProjC09.
 Theorem C09_projection : forall chk ws, HandN 7 ws -> proj_chain7 chk ws = Ok [true; true; true; true].
 Proof. exact proj_chain7_const. Qed.
 
+From CKC Require Import Proofs.ProjC09v.
+(* the validated entry points return the same values on distinct real cards, so the chain is theirs too *)
+Theorem C09_projection_validated : forall chk n ws,
+  (n = 5 \/ n = 6 \/ n = 7)%nat -> HandN n ws -> proj_vsame chk ws = [Ok true].
+Proof. exact proj_vsame_const. Qed.
+
 Print Assumptions C09_chain.
 Print Assumptions C09_monotone.
 Print Assumptions C09_min_of_sub.
 Print Assumptions C09_projection.
+Print Assumptions C09_projection_validated.
